@@ -23,7 +23,7 @@ def run(ctx):
             except Exception as e:
                 res.count("load_raised_" + core.exc_name(e)); continue
             is_sm = isinstance(sf, SMSimfile)
-            if not is_sm and not all(objs.ssc_chart_ok(c) for c in sf.charts):
+            if not is_sm and not all(objs.ssc_chart_has_notes(c) for c in sf.charts):
                 res.count("ssc_chart_without_notes"); continue
             params = c01.sm_params(sf) if is_sm else c02.ssc_params(sf)
             if not objs.scan_safe(params):
